@@ -254,4 +254,87 @@ def expectedValueSitesFunnel : List (String × String × String × String) := [
    "if (!context.hasPreserveOrStripSpaceConditions()) : getNodeData(text, data)", "noctx")
 ]
 
+/-! ### which execution context observers get
+
+`StylesheetExecutionContextDefault` contains an inner `XPathExecutionContextDefault` whose
+`shouldStripSourceNode` answers `false` and which reports no strip conditions.  Code that can observe nodes or
+string values — extension functions (`xalan:distinct`, `xalan:evaluate`, EXSLT sets/strings/math/dynamic), match
+pattern creation, key lookup, variable evaluation — must therefore run with the stylesheet context (`*this`), never
+with the inner one.  The list is every statement of `StylesheetExecutionContextDefault.cpp` that touches the inner
+context, reviewed: they delegate *services* only (current-node and context-node-list stacks, `isNodeAfter`,
+node-list and string caches, scratch QName, prefix resolver, namespace lookup, document registry, unparsed entities,
+`parseXML`, `doFormatNumber`, element/function availability); `extFunction` fetches the environment support from the
+inner context but calls it with `*this`. -/
+
+def expectedContextForwarding : List (String × String) := [
+  ("StylesheetExecutionContextDefault::formatNumber",
+   "m_xpathExecutionContextDefault.doFormatNumber( number, pattern, theDFS, theResult, context, locator);"),
+  ("StylesheetExecutionContextDefault::formatNumber",
+   "XalanQNameByValue& theDFSQName = m_xpathExecutionContextDefault.getScratchQName();"),
+  ("StylesheetExecutionContextDefault::formatNumber",
+   "m_xpathExecutionContextDefault.doFormatNumber(number,pattern,theDFS,theResult,context,locator);"),
+  ("StylesheetExecutionContextDefault::reset",
+   "m_xpathExecutionContextDefault.reset();"),
+  ("StylesheetExecutionContextDefault::getCurrentNode",
+   "return m_xpathExecutionContextDefault.getCurrentNode();"),
+  ("StylesheetExecutionContextDefault::pushCurrentNode",
+   "m_xpathExecutionContextDefault.pushCurrentNode(theCurrentNode);"),
+  ("StylesheetExecutionContextDefault::popCurrentNode",
+   "m_xpathExecutionContextDefault.popCurrentNode();"),
+  ("StylesheetExecutionContextDefault::isNodeAfter",
+   "return m_xpathExecutionContextDefault.isNodeAfter(node1, node2);"),
+  ("StylesheetExecutionContextDefault::pushContextNodeList",
+   "m_xpathExecutionContextDefault.pushContextNodeList(theContextNodeList);"),
+  ("StylesheetExecutionContextDefault::popContextNodeList",
+   "m_xpathExecutionContextDefault.popContextNodeList();"),
+  ("StylesheetExecutionContextDefault::getContextNodeList",
+   "return m_xpathExecutionContextDefault.getContextNodeList();"),
+  ("StylesheetExecutionContextDefault::getContextNodeListLength",
+   "return m_xpathExecutionContextDefault.getContextNodeListLength();"),
+  ("StylesheetExecutionContextDefault::getContextNodeListPosition",
+   "return m_xpathExecutionContextDefault.getContextNodeListPosition(contextNode);"),
+  ("StylesheetExecutionContextDefault::elementAvailable",
+   "return m_xpathExecutionContextDefault.elementAvailable(theQName);"),
+  ("StylesheetExecutionContextDefault::elementAvailable",
+   "XalanQNameByValue& theQName = m_xpathExecutionContextDefault.getScratchQName();"),
+  ("StylesheetExecutionContextDefault::functionAvailable",
+   "return m_xpathExecutionContextDefault.functionAvailable(theQName);"),
+  ("StylesheetExecutionContextDefault::functionAvailable",
+   "return m_xpathExecutionContextDefault.functionAvailable(theName, theLocator);"),
+  ("StylesheetExecutionContextDefault::extFunction",
+   "assert(m_xpathExecutionContextDefault.getXPathEnvSupport() != 0);"),
+  ("StylesheetExecutionContextDefault::extFunction",
+   "return m_xpathExecutionContextDefault.getXPathEnvSupport()->extFunction(*this, theNamespace, functionName, context, argVec, locator);"),
+  ("StylesheetExecutionContextDefault::parseXML",
+   "return m_xpathExecutionContextDefault.parseXML( theManager, urlString, base, theErrorHandler);"),
+  ("StylesheetExecutionContextDefault::borrowMutableNodeRefList",
+   "return m_xpathExecutionContextDefault.borrowMutableNodeRefList();"),
+  ("StylesheetExecutionContextDefault::returnMutableNodeRefList",
+   "return m_xpathExecutionContextDefault.returnMutableNodeRefList(theList);"),
+  ("StylesheetExecutionContextDefault::createMutableNodeRefList",
+   "return m_xpathExecutionContextDefault.createMutableNodeRefList(theManager);"),
+  ("StylesheetExecutionContextDefault::getCachedString",
+   "return m_xpathExecutionContextDefault.getCachedString();"),
+  ("StylesheetExecutionContextDefault::releaseCachedString",
+   "return m_xpathExecutionContextDefault.releaseCachedString(theString);"),
+  ("StylesheetExecutionContextDefault::getNodeSetByKey",
+   "m_xpathExecutionContextDefault.getScratchQName();"),
+  ("StylesheetExecutionContextDefault::getPrefixResolver",
+   "return m_xpathExecutionContextDefault.getPrefixResolver();"),
+  ("StylesheetExecutionContextDefault::setPrefixResolver",
+   "m_xpathExecutionContextDefault.setPrefixResolver(thePrefixResolver);"),
+  ("StylesheetExecutionContextDefault::getNamespaceForPrefix",
+   "return m_xpathExecutionContextDefault.getNamespaceForPrefix(prefix);"),
+  ("StylesheetExecutionContextDefault::findURIFromDoc",
+   "return m_xpathExecutionContextDefault.findURIFromDoc(owner);"),
+  ("StylesheetExecutionContextDefault::getUnparsedEntityURI",
+   "return m_xpathExecutionContextDefault.getUnparsedEntityURI(theName, theDocument);"),
+  ("StylesheetExecutionContextDefault::getSourceDocument",
+   "return m_xpathExecutionContextDefault.getSourceDocument(theURI);"),
+  ("StylesheetExecutionContextDefault::setSourceDocument",
+   "m_xpathExecutionContextDefault.setSourceDocument(theURI, theDocument);"),
+  ("XPathExecutionContextDefault::shouldStripSourceNode",
+   "{ return false; }")
+]
+
 end XalanModel.C13
